@@ -260,7 +260,7 @@ def run(ck, prog, ctx):
         the name as stored and the query as given"""
         return text_changes(prog, pvs_, b, op)
 
-    g, sites = closure_calls("ontology::Ontology::gene_by_name", r"^<str as std::cmp::PartialEq>::eq$|^<&str as std::cmp::PartialEq>::eq$|^<str as std::cmp::PartialEq<str>>::eq|^<&str as std::cmp::PartialEq<&str>>::eq")
+    g, sites = closure_calls("ontology::Ontology::gene_by_name", r"^<str as std::cmp::PartialEq>::(eq|ne)$|^<&str as std::cmp::PartialEq>::(eq|ne)$|^<str as std::cmp::PartialEq<str>>::(eq|ne)|^<&str as std::cmp::PartialEq<&str>>::(eq|ne)")
     if ck.anchor("ROLE", "Ontology::gene_by_name", g):
         other = [(b, bi, t) for b in prog.family(g) for bi, t in b.calls() if t.callee.method in ("contains", "starts_with", "ends_with", "eq_ignore_ascii_case", "find") and (t.callee.impl_self or "").startswith("str")]
         for b, bi, t in other:
@@ -273,6 +273,12 @@ def run(ck, prog, ctx):
             names = [name_side(a0, r"Gene"), name_side(a1, r"Gene")]
             qs = [2 in params_of(a0, g.id), 2 in params_of(a1, g.id)]
             ok = (names[0] and qs[1] and not qs[0]) or (names[1] and qs[0] and not qs[1])
+            # ... and a gene is selected when the comparison says EQUAL: `eq` handed on as it is, or `ne` negated
+            from engines import bool_polarity as _bp10
+            pol_, _ct = _bp10(b, Prov(prog, inline=False), lambda c_: c_ is t.callee)
+            if pol_ is not None:
+                sel_eq = (t.callee.method == "eq") == (pol_ == 1)
+                ck.ob("ROLE", "gene_by_name/selects-equal/%d" % n, sel_eq, "gene_by_name selects a gene whose symbol is %s the query" % ("equal to" if sel_eq else "DIFFERENT from"), where=b.where(t.line))
             ck.ob("ROLE", "gene_by_name/eq/%d" % n, ok, "gene_by_name compares %s" % ("gene.name() with the query parameter by equality" if ok else "operands that are not (gene name, query)"), where=b.where(t.line))
             tr = transforms(b, t.args[0]) + transforms(b, t.args[1])
             ck.ob("ROLE", "gene_by_name/as-given/%d" % n, not tr, "gene_by_name compares the stored symbol and the query %s" % ("as they are" if not tr else "after `%s`: a gene with another symbol can be returned" % ", ".join(tr)), where=b.where(t.line))
